@@ -23,8 +23,11 @@ REAL = ["rpyc.core.protocol.Connection._send/_send_data/_async_request/_get_seq_
 STUB = ["peer = recording sink (nobody reads)", "threads/locks = simulator tasks and locks; line-level pre-emption via sys.settrace"]
 ASSUMPTIONS = ["pre-emption granularity is a source line (not a bytecode)", "seeded search, not exhaustive enumeration of the 2-thread space"]
 PROBES = ["c12:queue-empty-under-lock", "c12:lock-busy-return", "c12:reentrant-send", "c12:multi-write-frame"]
-TRACE_FILES = ("rpyc/core/protocol.py", "rpyc/core/channel.py")
-TRACE_FUNCS = {"_send", "_send_data", "_async_request", "_get_seq_id", "async_request", "send"}
+TRACE_FILES = ("rpyc/core/protocol.py", "rpyc/core/channel.py", "rpyc/core/brine.py")
+# (the message is serialised by brine.dump before it enters the queue / try-lock hand-off, i.e. outside the send lock: two senders
+#  can be inside the encoder at the same time)
+TRACE_FUNCS = {"_send", "_send_data", "_async_request", "_get_seq_id", "async_request", "send", "dump", "_dump", "_dump_tuple", "_dump_str",
+               "_dump_bytes", "_dump_int"}
 CHUNK = 100
 
 
